@@ -231,6 +231,25 @@ func isFreshMapExpr(e *Engine, x ast.Expr) bool {
 	return false
 }
 
+// verifyKey: a key "body:K" verifies the body of K against its body-only
+// contract (callers of K keep the assumed one); any other key is verifyFunc.
+func (e *Engine) verifyKey(key string) *FuncCtx {
+	if !strings.HasPrefix(key, "body:") {
+		return e.verifyFunc(key)
+	}
+	k := strings.TrimPrefix(key, "body:")
+	saved, had := e.spec.Contracts[k]
+	e.spec.Contracts[k] = e.spec.Bodies[k]
+	defer func() {
+		if had {
+			e.spec.Contracts[k] = saved
+		} else {
+			delete(e.spec.Contracts, k)
+		}
+	}()
+	return e.verifyFunc(k)
+}
+
 // verifyFunc symbolically executes one function against its contract and
 // returns the context holding the generated obligations.
 func (e *Engine) verifyFunc(key string) (ctx *FuncCtx) {
